@@ -6,28 +6,26 @@
 (*              message); labels carry t = TRUE iff the value is templated  *)
 (*   in.sets    selector sets of the request (rendered to match[] strings   *)
 (*              by the harness), in.rep replica labels of the client        *)
+(*   req        the complete request (see below); got.warnings their count  *)
 (*   got.err    "" or the error text of GRPCClient.Rules                    *)
 (*   got.rules  the rules of all returned groups, flattened, in order       *)
 (* Judged with the property-level operator RViolations of Rules.tla.        *)
 (***************************************************************************)
 EXTENDS TraceLib, Rules
 
-Judge(e) ==
-    IF e.got.err # ""
-      (* every generated request is well formed: the statement's "a rule is returned if ..." *)
-      (* leaves no room for refusing it                                                      *)
-      THEN {"valid-request-answered"}
-      ELSE RViolations(e.in, e.got.rules)
+(* e.req is the case completed to the request shape of Rules.tla phase 2 (cases of the first      *)
+(* generation: one healthy rules server, no name / group / file filter, for which RViolations2      *)
+(* coincides with RViolations); e.via tells whether the real fan-out rules.Proxy was in the path.   *)
+Judge(e) == RViolations2(e.req, e.got)
 
 (* Model conformance (never a verdict): the replica the algorithm-level model keeps for   *)
 (* each returned rule (most critical state, then latest evaluation) is the one observed,  *)
-(* and the algorithm-level filter selects exactly the identities returned.                *)
+(* and the algorithm-level filters select exactly the identities returned.                *)
 Drift(e) ==
     /\ e.got.err = ""
     /\ \/ \E k \in DOMAIN e.got.rules :
-            <<e.got.rules[k].st, e.got.rules[k].ev>> \notin RAlgoSurvivors(e.in, ROutIdentity(e.got.rules[k]))
-       \/ { ROutIdentity(e.got.rules[k]) : k \in DOMAIN e.got.rules }
-            # { RIdentity(r, RRan(e.in.rep)) : r \in { x \in RRan(e.in.rules) : RAlgoMatches(e.in.sets, x.labels) } }
+            <<e.got.rules[k].st, e.got.rules[k].ev>> \notin RAlgoSurvivors2(e.req, ROutIdentity(e.got.rules[k]))
+       \/ { ROutIdentity(e.got.rules[k]) : k \in DOMAIN e.got.rules } # RAlgoIds2(e.req)
 
 VARIABLE l
 TraceInit == l = 1
